@@ -1541,6 +1541,9 @@ func (x *Exec) evalMarker(st *State, call *ast.CallExpr, name string) *Term {
 			return x.hread(st, "ghost$rlocks", SInt, mu)
 		}
 		return x.hread(st, "ghost$wlocked", SBool, mu)
+	case "__cancelled":
+		// ghost: the context has been cancelled (its Done channel is closed)
+		return x.app("ctx.cancelled", SBool, x.eval(st, call.Args[0]))
 	case "__samemap":
 		// reference identity of two maps (Go itself cannot compare maps)
 		return Eq(x.eval(st, call.Args[0]), x.eval(st, call.Args[1]))
